@@ -889,11 +889,16 @@ func (d *driver) selftest(active []string) (n int, mismatches map[string]int, er
 	if firstErr != nil {
 		return 0, nil, firstErr
 	}
+	shown := 0
 	for k, v := range got {
 		n += len(v)
 		for _, x := range v[1:] {
 			if x != v[0] {
 				mismatches[k.b]++
+				if shown < 8 {
+					shown++
+					fmt.Fprintf(os.Stderr, "[%s] self-test divergence: build %s seed %d: %v\n", d.prop, k.b, k.s, v)
+				}
 			}
 		}
 	}
